@@ -146,6 +146,28 @@ def run(ctx, repo):
     elif conv and not any(f.rule == 'R4' for f in ctx.findings):
         ctx.finding('R4', '%s::TyrvingCalculator::decimal comma parity' % TYR, TYR, cls.lineno,
                     'the *_points methods disagree on converting a decimal comma in text marks: %s' % conv)
+    # the mark (a Decimal) is compared only with Decimals: a comparison with the raw table text is always False / raises
+    shmod = repo.module(SH)
+    for q in ('score_high_event', 'score_low_event'):
+        fn = shmod.func(q)
+        dec = {a.arg for a in fn.args.args if a.annotation is not None and ast.unparse(a.annotation) == 'Decimal'}
+        for n in ast.walk(fn):
+            if isinstance(n, ast.Assign) and isinstance(n.value, ast.Call) and call_name(n.value) == 'Decimal':
+                for t in n.targets:
+                    if isinstance(t, ast.Name):
+                        dec.add(t.id)
+        for n in ast.walk(fn):
+            if isinstance(n, ast.Compare) and len(n.ops) == 1:
+                l, r = n.left, n.comparators[0]
+                for a, b in ((l, r), (r, l)):
+                    if isinstance(a, ast.Name) and a.id in dec and a.id == fn.args.args[0].arg:
+                        b_ok = (isinstance(b, ast.Name) and b.id in dec) or (isinstance(b, ast.Call) and call_name(b) == 'Decimal')
+                        if not b_ok:
+                            ctx.finding('R4', '%s::%s::%s compares the mark with a non-Decimal' % (SH, q, unparse(n)), SH, n.lineno,
+                                        '%s compares the Decimal mark with %s, which is not a Decimal (the table cells are text): the comparison '
+                                        'is never true, so a mark exactly on that threshold takes the wrong branch' % (q, unparse(b)), 'the 80-point mark itself')
+                        else:
+                            ctx.ok('R4', '%s: %s compares Decimals' % (q, unparse(n)))
     # ---- R5 conversions
     cprobs, n_conv = tables.sportshall_conversions(repo, db)
     by_code = {}
